@@ -1,4 +1,5 @@
 """C02 - canonicalisation never changes what a URL means."""
+from ..rules.kindrules import k1, k2_k3, k_req, make_kinds
 from .common import quoter_audits, table_checks
 
 META = {}
@@ -14,3 +15,7 @@ def run(ctx):
         "the rewind arithmetic.")
     pols, cfgs = quoter_audits(ctx, ch2=False)   # the dropped-surrogate clause (CH2) belongs to C01/C05
     table_checks(ctx, pols, cfgs, {"pct", "protect", "plus", "stable"})
+    K = make_kinds(ctx.model)
+    k2_k3(ctx, K)
+    k_req(ctx, K)
+    k1(ctx, K, only={"_url.URL.join", "_url.URL.with_name", "_url.URL.with_suffix", "_url.URL._with_raw_name", "_url.URL._make_child", "_url.URL.parent"})
